@@ -20,6 +20,8 @@ from .spaces import Typer
 rule("C07.e", "reset_index(drop=True) is applied to a mapping only where the frame was built here with one row per variable; "
               "new-variable rows concatenated with default labels are renumbered", floor=5, props=["C07", "C17"])
 rule("C17.b", "make_slp uses one future selector for l, u, c, sample costs, columns of A, the zeroed present copy and the mapping", floor=6)
+rule("C17.h", "make_slp: a variable is a present (first-stage) variable only if *all* its mapping rows lie in the present - the "
+              "classification looks at every row of a variable, not at one representative row", floor=1)
 rule("C17.c", "original future costs and every sample are divided by the same (nS + 1)", floor=2)
 rule("C17.d", "b and cType are repeated nS + 1 times and A is the original plus nS stacked blocks", floor=3)
 rule("C17.f", "robust target: sample constraints, recomputed value and plain objective use the same sign of c", floor=3, props=["C17", "C03"])
@@ -48,7 +50,7 @@ def _fresh_frames(fn):
     return out
 
 
-@analysis("slp", ["C07.e", "C17.b", "C17.c", "C17.d", "C17.f"])
+@analysis("slp", ["C07.e", "C17.b", "C17.c", "C17.d", "C17.f", "C17.h"])
 def run(ctx):
     p = ctx.p
     # ================================================================= C07.e
@@ -220,3 +222,29 @@ def run(ctx):
             ctx.ob("C17.f", opt, "%s: sign of c" % k, s == ref and s < 0,
                    "value is -c'x everywhere: the %s uses the opposite sign, so the robust solution maximises the wrong quantity / "
                    "reports a value of the wrong sign" % k, node=n)
+
+    # ================================================================= C17.h classification over all rows of a variable
+    ms = p.fn_opt("stoch_lin_prog.make_slp")
+    if ms is None:
+        ctx.ob("C17.h", "stoch_lin_prog", "present / future classification", None, "make_slp not found")
+    else:
+        from .spaces import Typer as _Typer
+        ty = _Typer(ctx, ms)
+        found = False
+        for st in au.walk_stmts(ms.body):
+            if not (isinstance(st, ast.Assign) and isinstance(st.value, ast.Call) and au.method_name(st.value) == "isin" and isinstance(st.value.func, ast.Attribute)):
+                continue
+            col = st.value.func.value
+            if not (isinstance(col, ast.Subscript) and au.const_str(col.slice) == "time_step"):
+                continue
+            found = True
+            one_row = ty.is_dedup(col.value, st)
+            aggregated = any(isinstance(x, ast.Call) and au.method_name(x) in ("groupby", "any", "all", "max", "min") for x in au.walk_local(st.value))
+            ctx.ob("C17.h", ms, au.short(st, 80), (not one_row) or aggregated,
+                   "whether a variable belongs to the future is read from a frame reduced to one (the first) row per variable: a variable with "
+                   "rows on both sides of start_future (an asset with a coarser frequency whose step straddles the boundary) counts as present "
+                   "although part of its cost comes from future prices - that cost is never replaced by the samples' and the report still divides "
+                   "its future dispatch by the number of samples. Two scenarios [1236, 36] with the same present price: SLP optimum 1236 > mean 636",
+                   node=st, key="present / future classification on one row per variable")
+        if not found:
+            ctx.ob("C17.h", ms, "present / future classification", None, "the test time_step.isin(future steps) was not found")
